@@ -126,8 +126,7 @@ def run(tier):
                        "from the current buffer's source only; non-trivial = >= 1 operation and >= 2 buffers")
     ck.assumptions += ["uses the manual forbids or leaves open are not generated: deleting or switching to a buffer that sits below the top of the "
                        "stack, yylex() with no current buffer after the first call, buffer calls between assigning yyin and the next yylex()",
-                       "buffers are created on FILE pointers, not NULL (flex marks a NULL-file buffer as not refillable although the manual calls "
-                       "it safe with a user yyread: recorded as a known finding)"]
+                       "buffers of the histories are created on (fake) FILE pointers; a NULL FILE with a user yyread is the directed probe"]
     ck.guard(tot["executions"] > 20000, "too few executions: %d" % tot["executions"])
     for i in range(1, 12):
         ck.guard(calls[i] > 0, "operation %s never exercised" % NAMES[i])
